@@ -624,6 +624,26 @@ def run(tier, seed):
                     for n, c in list(enumerate(cases))[len(cases) // 2: len(cases) // 2 + 3]],
         "distribution": dict(sorted(dist.items())),
     }
+    # repeatable owned leaves are cloned per request from a stored original that must stay in place: also when requests overlap
+    # (clones of the mock on 2-3 threads, every interleaving of the runtime's atomic operations, Layer B model)
+    from ..layer_b import ConcurrentPart
+    def repeat_programs(rng_, tier_):
+        progs = []
+        for ops in ([("ret", 7)], [("ret", 7), ("n", 3)], [("ret", 7), ("al", 1)], [("ret", 7), ("n", 1), ("then",), ("ret", 8)]):
+            for nth in (2, 3):
+                terms = [{"kind": "call", "mid": 0, "opener": "each", "pat": {"matcher": 255, "dbg": 1, "ops": ops}}]
+                progs.append({"partial": False, "terms": terms, "threads": [[(0, k)] for k in range(nth)], "sched": [], "shared": nth == 2})
+        return progs
+    cn, cpayload, ccov = (0, None, {})
+    if not (bad or kind_bad or mism):
+        cn, cpayload, ccov = ConcurrentPart("C17", repeat_programs, "correspondence C17 (concurrent part): overlapping requests for a repeatable owned "
+                                            "return value vs the Layer B model (every request is served with the configured value)")(rng, tier, seed, [])
+        cov.update(ccov); cov["obligations"] += 1; cov["discharged"] += 0 if cpayload else 1; cov["evaluations"] += cn
+    if cpayload is not None:
+        path = C.write_replay("C17", seed, cpayload)
+        C.write_evidence("C17", tier, seed, cov, time.time() - t0, 1)
+        C.violation("C17", path)
+        return 1
     if bad:
         n = min(bad, key=lambda j: (len(acc[cases[j]["k"]]["rust"]), len(tokens(cases[j]["v"]))))   # smallest disagreeing type first
         case = cases[n]
@@ -695,6 +715,9 @@ def run(tier, seed):
 
 def replay(path):
     payload = json.load(open(path))
+    if payload.get("part") == "sched":
+        from ..layer_b import replay_sched
+        return replay_sched("C17", payload, path)
     if payload.get("part") == "acceptance":
         (ok, e), = probe_programs([payload["program"]])
         print(payload["program"]); print("rustc:", "accepts" if ok else "rejects: " + e)
